@@ -150,7 +150,43 @@ def replay(inp: Any) -> Case:
     return make_case(inp["program"], c.num_unjson(inp["k"]), inp.get("seed", 0))
 
 
+def _quantities(prog: Any) -> List[Any]:
+    out: List[Any] = []
+
+    def expr(e: Any) -> None:
+        if "ref" in e:
+            a = e.get("amt")
+            if a is not None and "q" in a:
+                out.append(c.num_unjson(a["q"][0]))
+        else:
+            for i in e["ins"]:
+                expr(i)
+    for b in prog:
+        for st in b:
+            expr(st["expr"])
+    return out
+
+
+def at_isclose_boundary(prog: Any) -> bool:
+    """Two written quantities whose relative difference is within one part in a million of math.isclose's own
+    tolerance 1e-9: whether they count as 'the whole amount' is decided by float rounding, before and after scaling."""
+    from fractions import Fraction
+    qs = [Fraction(q) for q in _quantities(prog)]
+    tol = Fraction(1, 10 ** 9)
+    for i, a in enumerate(qs):
+        for b in qs[i + 1:]:
+            if a != b and max(a, b) > 0:
+                r = abs(a - b) / max(abs(a), abs(b))
+                if abs(r / tol - 1) < Fraction(1, 10 ** 6):
+                    return True
+    return False
+
+
 def known_match(finding: Any, case: Case) -> bool:
+    if finding.get("matches") == "isclose_boundary_commute":
+        inp = case.input
+        return (isinstance(inp, dict) and "program" in inp and (case.violation or "").startswith("scaling the compiled recipe and compiling")
+                and at_isclose_boundary(inp["program"]))
     return False
 
 
